@@ -22,7 +22,8 @@ ASSUMPTIONS = ['vlib/spec/layouts.py is a hand-written specification (trusted)',
                'for content-dependent strategies (TCHIC, CHICTV, DamAndT family) the emitted stretch only has to be a contiguous, index-aligned slice starting at or after the insert start',
                'the emptied 10x whitelist is replaced by a generated one in a scratch barcode directory']
 MIN_NONTRIVIAL = {'quick': 3000, 'thorough': 150000}
-REQUIRED_MONITORS = ['hook:target.write', 'hook:reject.write', 'check:tags', 'check:emitted', 'check:serialised']
+REQUIRED_MONITORS = ['hook:target.write', 'hook:reject.write', 'check:tags', 'check:emitted', 'check:serialised', 'cli:runs', 'cli:pairs_checked',
+                     'input:filelist', 'input:chunked_lanes']
 SHARD_TIMEOUT = {'quick': 600, 'thorough': 3600}
 
 
@@ -34,6 +35,9 @@ def gen_cases(tier, seed):
         for k in (0, 1):
             for rep in range(reps):
                 cases.append({'strategy': name, 'k': k, 'n': n, 'rep': rep, 'seed': seed})
+    # the real command line on lanes / chunk files handed over in arbitrary order or as a file list
+    for j in range(12 if tier == 'quick' else 300):
+        cases.append({'kind': 'cli', 'j': j, 'seed': seed})
     return cases
 
 
@@ -178,7 +182,59 @@ def check_pair(acc, name, lay, k, wl, pair, recs, ctx):
     return nontrivial and not viol
 
 
+def run_cli_case(case):
+    """The real demux.py command line on a library delivered in lanes and chunk files, handed over in arbitrary order / as a file list: every
+    demultiplexed record pair is compared with the input pair of the same cluster through the layout table."""
+    import subprocess
+    from types import SimpleNamespace
+    from vlib.common import PY
+    from vlib.props import c01
+    acc = Acc()
+    r = rng(case['seed'], 'C02', 'cli', case['j'])
+    name = r.choice([n for n in LY.LAYOUTS if n not in ('ILLU', 'CHROMC16U12') and LY.ends_of(n) != 'se'])
+    k = r.choice([0, 1])
+    with Scratch('c02cli') as d:
+        wl = fq.load_whitelists(os.path.join(fq.REPO_DEMUX, 'barcodes'))
+        iwl = fq.load_whitelists(os.path.join(fq.REPO_DEMUX, 'indices'))
+        lib, files, all_pairs, files_on_disk, input_form, lanes = c01.cli_build_inputs(r, d, name, False, wl, iwl, 8800 + case['j'], acc)
+        out = os.path.join(d, 'out')
+        drv = os.path.join(d, 'drv.py')
+        with open(drv, 'w') as f:
+            f.write(c01.CLI_DRIVER)
+        p = subprocess.run([PY, drv] + files + ['-use', name, '--y', '-o', out, '-hd', str(k)], capture_output=True, text=True, timeout=600, cwd=d)
+        acc.count('cli:runs')
+        cfg = {'cli': True, 'strategy': name, 'k': k, 'input_form': input_form, 'chunk_files': len(files_on_disk), 'lanes': lanes}
+        if p.returncode != 0:
+            raise RuntimeError(f'demux.py exited {p.returncode}: {p.stderr[-300:]} ({cfg})')
+        disk = []
+        for m in ('R1', 'R2'):
+            recs, err = fq.read_fastq_strict(os.path.join(out, lib, f'demultiplexed{m}.fastq.gz'))
+            if err:
+                acc.violate('serialised-output-malformed', f'cli {name}: demultiplexed{m}: {err} ({cfg})', {})
+                return acc
+            disk.append(recs)
+        byid = {x['id']: x for x in all_pairs}
+        lay = LY.LAYOUTS[name]
+        for idx in range(min(len(disk[0]), len(disk[1]))):
+            recs = [SimpleNamespace(tags=fq.parse_out_header(disk[m][idx][0]), sequence=disk[m][idx][1], qualities=disk[m][idx][3]) for m in (0, 1)]
+            rid = fq.record_id(disk[0][idx][0])
+            if rid is None or rid[0] not in byid:
+                acc.violate('id-lost', f'cli {name}: demultiplexed record {idx} cannot be traced to an input pair ({cfg})', {})
+                continue
+            acc.evals += 1
+            acc.count('cli:pairs_checked')
+            pair = byid[rid[0]]
+            if check_pair(acc, name, lay, k, wl, pair, recs, {'planted': pair['planted'], 'kind': pair['kind'], 'config': cfg}):
+                acc.sigs.add(f"cli/{name}/{case['j']}/{rid[0]}")
+        if len(disk[0]) != len(disk[1]):
+            acc.violate('mate-count', f'cli {name}: {len(disk[0])} R1 records, {len(disk[1])} R2 records ({cfg})', {})
+        acc.sample = {'config': cfg, 'pairs': len(all_pairs), 'accepted': len(disk[0])}
+    return acc
+
+
 def run_case(case):
+    if case.get('kind') == 'cli':
+        return run_cli_case(case)
     from singlecellmultiomics.fastqProcessing.fastqHandle import FastqHandle
     acc = Acc()
     name, k = case['strategy'], case['k']
